@@ -292,6 +292,31 @@ def gain_case(p, res):
                 want = float((hx.abs() ** 2).mean()) / 10 ** (snr / 10)
                 if abs(pn - want) > 5e-3 * want:
                     res.viol(ft, cfg, "noise-calibrated", f"noise power {pn:.6g}, expected faded-signal power / SNR = {want:.6g} (ratio {pn / want:.4f})")
+    # noise configured by POWER: the drawn noise has exactly that power, whatever the signal and the gains are (csi supplied, noise drawn)
+    for pw in (0.01, 0.2, 1.0, 3.0):
+        ch = make(ft, par, how, 4, avg_noise_power=pw)
+        for pname in ("flat", "burst-weak", "correlated"):
+            x1, h1 = patterns[pname]
+            for shape in ((1, N), (N,), (8, N // 8)):
+                if shape != (1, N) and (pw != 0.2 or pname != "flat"):
+                    continue
+                for scale in (1.0, 7.0):
+                    if scale != 1.0 and pname != "flat":
+                        continue
+                    cfg = f"{par},{how},power={pw},{pname},shape={'x'.join(map(str, shape))},scale={scale}"
+                    x = (x1 * scale).reshape(shape)
+                    h = h1 if len(shape) == 1 else h1.reshape(shape[0], -1)
+                    try:
+                        with Seam(Quantile()):
+                            y = ch(x, csi=h)
+                    except Exception as e:  # noqa: BLE001
+                        res.viol(ft, cfg, "raises", f"csi supplied, noise by power: {type(e).__name__}: {str(e)[:200]}")
+                        continue
+                    res.ev(1, nontrivial=1, transitions=1)
+                    hx = (h.reshape(-1) * x.reshape(-1)).to(torch.complex128)
+                    pn = float(((y.reshape(-1).to(torch.complex128) - hx).abs() ** 2).mean())
+                    if abs(pn - pw) > 5e-3 * pw:
+                        res.viol(ft, cfg, "noise-power", f"noise power {pn:.6g}, configured avg_noise_power = {pw} (ratio {pn / pw:.4f})")
     # the same with DRAWN fading: a probe run (ones in, zero noise) reveals the gains the answer policy produces; the signal is then switched on
     # only where the gain is below / above its median, and the noise of the SNR run is y - h.x with h.x taken from a zero-noise run
     for shape, T in (((1, N), 4), ((8, N // 8), 16)):
